@@ -149,7 +149,7 @@ class C04(NlpCheck):
     profiles = [
         ("constraint-rows-all-methods",
          {'methods': ALLM, 'grids': FIXED_GRIDS + ['free', 'uniform_locT'], 'horizon': ['num', 'freeT', 'param'],
-          'obj_kinds': ['at_tf'], 'ncons': (1, 4), 'scale_prob': 0.3, 'offset_prob': 0.0,
+          'obj_kinds': ['at_tf'], 'ncons': (1, 4), 'scale_prob': 0.4, 'offset_prob': 0.0, 'inf_bounds_prob': 0.6, 'nrows': [1, 1, 2, 2, 3],
           'Ns': [1, 2, 2, 3, 3, 4], 'Ms': [1, 1, 2, 3], 'degrees': [1, 2, 3]}, 40, 500),
         ("offsets",
          {'methods': ALLM, 'grids': ['uniform', 'geometric'], 'horizon': ['num'],
@@ -245,7 +245,7 @@ OBJK = ['at_tf', 'at_t0', 'integral', 'sum', 'sum_plus', 'int_control']
 class C05(NlpCheck):
     pid = "C05"
     uses_generated = True
-    slices = ["objective-all-methods", "colloc-integrates-constants", "sol.value(objective)-vs-solver"]
+    slices = ["objective-all-methods", "colloc-integrates-constants", "sol.value(objective)-vs-solver", "terms-added-after-transcription"]
     tags = ()
     want_f = True
     profiles = [
@@ -276,6 +276,76 @@ class C05(NlpCheck):
         NlpCheck.correspondence(self)
         self.constants_slice()
         self.solver_slice()
+        self.late_terms_slice()
+
+    def late_terms_slice(self):
+        """objective terms added AFTER the problem was transcribed (a query, or a solve): the NLP solved next carries the sum of ALL
+        terms (the same problem declared in one go), and sol.value(ocp.objective) is what the solver minimised"""
+        import numpy as np
+        n = 8 if self.tier == 'quick' else 80
+        prof = {'methods': [('ms', 'rk'), ('dc', 'rk'), ('ss', 'rk'), ('ms', 'euler')], 'grids': ['uniform', 'geometric'], 'horizon': ['num', 'freeT'],
+                'obj_kinds': ['at_tf', 'integral'], 'ncons': (0, 1), 'Ns': [2, 3], 'Ms': [1, 2], 'degrees': [1, 2], 'nxs': [1, 2], 'nus': [1]}
+        for it in range(n):
+            desc = G.gen_case(self.rng, prof)
+            s_ = G.symbols(desc)
+            query = ['solve', 'value', 'sample'][it % 3]
+            cur = copy.deepcopy(desc)
+            hist = [query]
+            try:
+                bA = B.build(desc, transcribe=False)
+                ocp = bA.ocp
+                with B.quiet():
+                    ocp.solver('ipopt', {'ipopt.print_level': 0, 'print_time': False, 'ipopt.max_iter': 2, 'ipopt.sb': 'yes'})
+                    if query == 'solve':
+                        try:
+                            ocp.solve()
+                        except RuntimeError:
+                            pass
+                    elif query == 'value':
+                        ocp.value(ocp.T)
+                    else:
+                        ocp.sample(bA.states[0], grid='control')
+                    for _t in range(self.rng.randint(1, 2)):
+                        kind = self.rng.choice(['at_tf', 'at_t0', 'sum', 'integral'])
+                        e = G.poly(self.rng, s_['x'] + (s_['u'] if kind in ('sum', 'integral') else []), (1, 2), 2)
+                        ce = Mo.E.to_casadi(e, bA.sym_base)
+                        if kind == 'at_tf':
+                            ocp.add_objective(ocp.at_tf(ce))
+                        elif kind == 'at_t0':
+                            ocp.add_objective(ocp.at_t0(ce))
+                        elif kind == 'sum':
+                            ocp.add_objective(ocp.sum(ce))
+                        else:
+                            ocp.add_objective(ocp.integral(ce))
+                        cur['phs'] = cur['phs'] + [(kind, e)]
+                        cur['obj'] = ('+', cur['obj'], ('ph', len(cur['phs']) - 1))
+                        hist.append('add_objective(%s)' % kind)
+                    bB = B.build(cur, transcribe=False)
+                    bB.ocp.solver('ipopt', {'ipopt.print_level': 0, 'print_time': False, 'ipopt.max_iter': 2, 'ipopt.sb': 'yes'})
+                    bB.ocp._transcribed
+                    B.finish(bB)
+                err = nlp_signature_compare(ocp, bB, self.rng, "after %s" % (hist,))
+                if err is None:
+                    with B.quiet():
+                        try:
+                            sol = ocp.solve()
+                        except RuntimeError:
+                            sol = ocp.non_converged_solution
+                        val = float(sol.value(ocp.objective))
+                        objs = sol.stats['iterations']['obj']
+                    if np.isfinite(val) and not (abs(val - objs[-1]) <= 1e-8 * max(1.0, abs(val))):
+                        err = "after %s: sol.value(ocp.objective)=%r but the solver minimised %r" % (hist, val, objs[-1])
+            except (ZeroDivisionError, OverflowError):
+                continue
+            except Exception as ex:
+                err = "after %s: %s: %s" % (hist, type(ex).__name__, str(ex)[:300])
+            self.evaluations += 1
+            self.signatures.add("late-%d-%s" % (it, query))
+            self.count("late-terms-after:" + query)
+            if err:
+                self.slice_ok["terms-added-after-transcription"] = False
+                self.violation(err, {"desc": desc, "history": hist}, {"kind": "late-objective-term", "query": query})
+                return
 
     def constants_slice(self):
         cases = [(d, s) for d in (1, 2, 3, 4, 5) for s in ('radau', 'legendre')]
@@ -451,6 +521,9 @@ class C06(NlpCheck):
                       ("DT on control grid", got['dtnode'], 'DTnode', True), ("DT_control on control grid", got['dtcnode'], 'DTcnode', True),
                       ("DT on integrator grid", got['dtstep'] + [got['dtnode'][-1]], 'DTstep', True),
                       ("DT_control on integrator grid", got['dtcstep'] + [got['dtcnode'][-1]], 'DTcstep', True)]
+            if m['kind'] == 'dc' and 'troots' in phys:
+                # collocation times: t_k + (h_k/M)(i + tau_j), the interval's OWN step
+                checks.append(("integrator_roots time vector", got['roots'], 'troots', False))
             for name, mv, key, col in checks:
                 msg = cmp(name, mv, key, col)
                 if msg:
@@ -580,7 +653,7 @@ def impl_vs_impl(chk, bA, bB, xv, pA, pB, what):
 @register
 class C09(NlpCheck):
     pid = "C09"
-    slices = ["parametric-nlp", "constants-written-in", "set_value-histories"]
+    slices = ["parametric-nlp", "shifted-operands-with-interval-parameters", "constants-written-in", "set_value-histories"]
     tags = None
     whole = True
     want_f = True
@@ -589,6 +662,10 @@ class C09(NlpCheck):
          {'methods': ALLM + [('ss', 'euler')], 'grids': FIXED_GRIDS + ['free', 'uniform_locT'], 'horizon': ['num', 'param', 'param', 'freeT'],
           'obj_kinds': ['at_tf', 'integral', 'sum_plus'], 'ncons': (1, 3), 'offset_prob': 0.3,
           'features': {'p': 0.9, 'pc': 0.8, 'pcp': 0.7, 'v': 0.3}, 'Ns': [1, 2, 3, 4], 'Ms': [1, 2, 3], 'degrees': [1, 2, 3]}, 45, 500),
+        ("shifted-operands-with-interval-parameters",
+         {'methods': ALLM, 'grids': FIXED_GRIDS, 'horizon': ['num'], 'obj_kinds': ['at_tf'], 'ncons': (1, 2), 'con_grids': ['control'],
+          'offset_prob': 1.0, 'offsets': [1, 1, 2, -1], 'offset_force_pcp': True,
+          'features': {'p': 0.3, 'pc': 0.5, 'pcp': 1.0}, 'Ns': [2, 3, 4], 'Ms': [1, 2], 'degrees': [1, 2]}, 12, 120),
     ]
 
     def explanation(self):
@@ -750,6 +827,9 @@ class C11(NlpCheck):
             dA = G.gen_case(self.rng, dict(prof, horizon=['freeboth']) if forced else prof)
             if forced and dA['t0'][1] == 0:
                 dA['t0'] = ('free', Fr(3, 2))
+            if forced and it_ % 4 in (0, 3):
+                dA['t0'] = ('free', Fr(-self.rng.randint(1, 7), 2))     # a start time before zero is a guess like any other
+                self.count("negative-t0-guess")
             # with both ends free, sometimes the user gives a guess for ONE of them: it must win for that one, and the other
             # still starts at its FreeTime guess
             user_guess = {}
@@ -1118,8 +1198,11 @@ class C07(SampleCheck):
 
     def symbolic_slice(self):
         n = 30 if self.tier == 'quick' else 400
-        for _ in range(n):
-            desc = self.gen()
+        for it_ in range(n):
+            # stratified head: an index-1 DAE under DirectCollocation with M > 1, the algebraic variable inside the sampled
+            # expression on every grid (interior integrator points have their own algebraic value)
+            dae_case = it_ < (4 if self.tier == 'quick' else 40)
+            desc = self.gen({'methods': [('dc', 'rk')], 'Ms': [2, 3], 'features': {'qstate': 0.3, 'dae': 1.0, 'pc': 0.4, 'pcp': 0.3, 'vc': 0.3, 'vcp': 0.3}}) if dae_case else self.gen()
             try:
                 b = B.build(desc)
             except Exception as e:
@@ -1130,8 +1213,9 @@ class C07(SampleCheck):
             for gname, kw, cmd in (('control', {}, 'sample control 1 1'), ('control-', {}, 'sample control 1 0'), ('-control', {}, 'sample control 1 0'),
                                    ('integrator', {}, 'sample integrator')) + ((('integrator_roots', {}, 'sample roots'),) if desc['method']['kind'] == 'dc' else ()):
                 at = sample_atoms(desc, 'roots' if gname == 'integrator_roots' else gname)
+                zs = G.symbols(desc)['z']
                 for _k in range(2):
-                    jobs.append((gname, kw, cmd, G.poly(self.rng, at, (1, 3), 2)))
+                    jobs.append((gname, kw, cmd, G.poly(self.rng, at, (1, 3), 2, must=zs if (dae_case and zs and _k == 0) else None)))
             if not desc.get('next'):
                 r_ = self.rng.randint(1, 4)
                 jobs.append(('integrator', {'refine': r_}, 'sample fine %d' % r_, G.poly(self.rng, sample_atoms(desc, 'integrator', for_refine=True), (1, 3), 2)))
@@ -1526,7 +1610,7 @@ def nlp_signature_compare(bA_ocp, bB, rng, what):
 @register
 class C13(Check):
     pid = "C13"
-    slices = ["operation-histories", "declared-lists-untouched", "stage-tree-histories"]
+    slices = ["operation-histories", "declared-lists-untouched", "stage-tree-histories", "dae-shooting-histories"]
     uses_generated = True
     OPS = ['set_value', 'set_initial', 'subject_to', 'clear_constraints', 'add_objective', 'method', 'solver', 'set_T', 'set_t0', 'sample', 'value', 'solve']
 
@@ -1543,8 +1627,9 @@ class C13(Check):
 
     def correspondence(self):
         self.single_stage_histories()
-        from .props2 import tree_history_slice
+        from .props2 import tree_history_slice, dae_shooting_history_slice
         tree_history_slice(self, "stage-tree-histories")
+        dae_shooting_history_slice(self, "dae-shooting-histories")
 
     def single_stage_histories(self):
         import casadi as ca
@@ -1553,8 +1638,19 @@ class C13(Check):
         prof = {'methods': [('ms', 'rk'), ('dc', 'rk'), ('ss', 'rk'), ('ms', 'euler')], 'grids': ['uniform', 'geometric'], 'horizon': ['num', 'freeT'],
                 'obj_kinds': ['at_tf', 'integral'], 'ncons': (0, 2), 'features': {'p': 1.0, 'pc': 0.5, 'qstate': 0.0},
                 'Ns': [2, 3], 'Ms': [1, 2], 'degrees': [1, 2], 'nxs': [1, 2], 'nus': [1]}
-        for _ in range(n):
-            desc = G.gen_case(self.rng, prof)
+        # dedicated histories first (each a known-delicate order), then random ones
+        PLANNED = [
+            ['set_initial:expr', 'value', 'set_T'],            # a guess written in ocp.t, a query, then a new horizon guess (free T)
+            ['set_initial:expr', 'solve', 'set_T', 'sample'],
+            ['sample', 'add_objective', 'solve'],              # a term added after a transcription
+            ['value', 'subject_to', 'value'],
+            ['solve', 'set_value', 'solve'],
+            ['value', 'method', 'set_initial:expr', 'set_T'],
+        ]
+        nplanned = len(PLANNED) * (1 if self.tier == 'quick' else 6)
+        for case_i in range(n + nplanned):
+            planned = list(PLANNED[case_i % len(PLANNED)]) if case_i < nplanned else []
+            desc = G.gen_case(self.rng, dict(prof, horizon=['freeT']) if planned and 'set_T' in planned else prof)
             desc['param_values'] = {}
             try:
                 bA = B.build(desc, transcribe=False)
@@ -1567,12 +1663,17 @@ class C13(Check):
             decl_before = None
             cur['solver'] = ('ipopt', {'ipopt.print_level': 0, 'print_time': False, 'ipopt.max_iter': 0, 'ipopt.sb': 'yes'})
             ops = []
-            nops = self.rng.randint(2, maxops)
+            nops = self.rng.randint(2, maxops) if not planned else len(planned) + self.rng.randint(0, 2)
             err = None
             s = G.symbols(desc)
             nstates_before = len(ocp.states); ncons_decl = None
             for step in range(nops):
-                op = self.rng.choice(self.OPS)
+                op = planned[step] if step < len(planned) else self.rng.choice(self.OPS)
+                force_expr = op == 'set_initial:expr'
+                if force_expr:
+                    op = 'set_initial'
+                if op == 'set_value' and not (bA.params[''] or bA.params['control']):
+                    op = 'value'
                 try:
                     with B.quiet():
                         if op == 'set_value':
@@ -1587,7 +1688,7 @@ class C13(Check):
                         elif op == 'set_initial':
                             i = self.rng.randrange(len(bA.states))
                             n_ = bA.states[i].numel()
-                            if self.rng.random() < 0.5:
+                            if self.rng.random() < 0.5 and not force_expr:
                                 g = ('x', i, ('num', [self.rng.randint(-8, 8) / 4.0 for _r in range(n_)]))
                             else:
                                 g = ('x', i, ('expr', [('+', ('*', Mo.E.C(G.coef(self.rng)), ('t',)), Mo.E.C(G.coef(self.rng))) for _r in range(n_)]))
@@ -1825,7 +1926,7 @@ class C20(Check):
         reps = 1 if self.tier == 'quick' else 6
         prof = {'methods': [('ms', 'rk'), ('ss', 'rk'), ('dc', 'rk'), ('ms', 'euler'), ('ms', 'next')], 'grids': ['uniform', 'geometric'], 'horizon': ['num', 'num', 'freeT'],
                 'obj_kinds': ['at_tf', 'integral'], 'ncons': (0, 2), 'Ns': [2, 3], 'Ms': [1, 2], 'degrees': [1, 2], 'nxs': [1, 2]}
-        kinds = [('ms', 'rk'), ('ss', 'rk'), ('dc', 'rk'), ('ms', 'next')]
+        kinds = [('ms', 'rk'), ('ss', 'rk'), ('dc', 'rk'), ('ms', 'next'), ('ms', 'euler'), ('ss', 'euler')]
         for rep in range(reps):
             for mk in kinds:
                 for fault in self.FAULTS:
@@ -1946,7 +2047,7 @@ def sym_offsets(sizes):
 @register
 class C10(Check):
     pid = "C10"
-    slices = ["starting-point", "nlp-unchanged-by-guesses"]
+    slices = ["starting-point", "nlp-unchanged-by-guesses", "spline-coefficients"]
 
     def explanation(self):
         return ("theorems: last call wins / frame property of the guess store; the interval loop (final node first, then every interval) "
@@ -1981,6 +2082,104 @@ class C10(Check):
         return ('expr', es), [('expr', e) for e in es]
 
     def correspondence(self):
+        self.sampling_methods_slice()
+        if not self.violations:
+            self.spline_slice()
+
+    def spline_slice(self):
+        """SplineMethod: the decision variables are the B-spline coefficients of the head of each integrator chain; the time a
+        coefficient belongs to is its Greville point. A guess for the head (constant, or an expression of time; before or after the
+        first transcription; the last call wins; free T through its guess) gives coefficient j the value at Greville time j; a head
+        without guess starts at zero"""
+        import casadi as ca
+        import numpy as np
+        try:
+            import networkx  # noqa
+        except ImportError:
+            self.notes.append("SplineMethod slice skipped (networkx not importable)")
+            return
+        rockit = B.import_rockit()
+        from .props2 import bs_knots
+        name = "spline-coefficients"
+        n = 12 if self.tier == 'quick' else 150
+        rng = self.rng
+        for it in range(n):
+            L = rng.randint(1, 3)
+            N = rng.randint(1, 4)
+            Tg = rng.randint(1, 8) / 2.0
+            t0 = rng.randint(-2, 4) / 2.0
+            freeT = rng.random() < 0.4
+            geo = rng.random() < 0.5
+            before = it % 2 == 0
+            ncalls = rng.choice([0, 1, 1, 2])
+            calls = []
+            for _c in range(ncalls):
+                if rng.random() < 0.4:
+                    calls.append(('const', [rng.randint(-12, 12) / 4.0]))
+                else:
+                    calls.append(('poly', [rng.randint(-8, 8) / 4.0 for _d in range(rng.randint(2, 4))]))
+            hist = {"L": L, "N": N, "T": Tg, "t0": t0, "freeT": freeT, "grid": "geometric" if geo else "uniform", "calls": calls, "order": "before" if before else "after"}
+            try:
+                with B.quiet():
+                    ocp = rockit.Ocp(t0=t0, T=rockit.FreeTime(Tg) if freeT else Tg)
+                    xs = [ocp.state() for _ in range(L)]
+                    u = ocp.control()
+                    for a, b_ in zip(xs, xs[1:] + [u]):
+                        ocp.set_der(a, b_)
+                    ocp.add_objective(ocp.sum(u ** 2, include_last=False) + ocp.at_tf(xs[0] ** 2) + ocp.T)
+                    ocp.subject_to(ocp.at_t0(xs[0]) == 1)
+                    ocp.method(rockit.SplineMethod(N=N, grid=rockit.GeometricGrid(2) if geo else rockit.UniformGrid()))
+                    ocp.solver('ipopt', {'ipopt.print_level': 0, 'print_time': False, 'ipopt.max_iter': 0, 'ipopt.sb': 'yes'})
+                    if not before:
+                        ocp._transcribed
+                        opti0 = ocp._method.opti
+                        F0 = ca.Function('F', [opti0.x, opti0.p], [opti0.f, opti0.g])
+                    for kind, cs in calls:
+                        ocp.set_initial(xs[0], cs[0] if kind == 'const' else sum(c * ocp.t ** d for d, c in enumerate(cs)))
+                    ocp._transcribed
+                    opti = ocp._method.opti
+                    val = lambda e: np.array(opti.debug.value(e, opti.initial())).flatten()
+                    tc = val(ocp.sample(xs[0], grid='control')[0])
+                    tg, cg = ocp.sample(xs[0], grid='gist')
+                    tg, cg = val(tg), val(cg)
+                    Tstart = float(val(ocp.value(ocp.T))[0])
+            except Exception as ex:
+                self.slice_ok[name] = False
+                self.violation("SplineMethod with guesses raised %s: %s (%s)" % (type(ex).__name__, str(ex)[:200], hist), {"case": hist}, {"kind": "exception", "method": "spline"})
+                return
+            self.evaluations += 1
+            self.signatures.add(repr(hist))
+            self.count("spline-guesses-" + hist["order"])
+            self.count("spline-guess-calls:%d" % ncalls)
+            err = None
+            if abs(Tstart - Tg) > 1e-12:
+                err = "T starts at %r, the guess is %r" % (Tstart, Tg)
+            knots = bs_knots([Fr(float(v)) for v in tc], L)
+            grev = [float(sum(knots[i + 1:i + L + 1], Fr(0)) / L) for i in range(N + L)]
+            if err is None and (len(tg) != len(grev) or any(abs(a - b_) > 1e-9 * (1 + abs(a)) for a, b_ in zip(grev, tg))):
+                err = "coefficient times %s are not the Greville points %s of the guessed grid" % (list(tg), grev)
+            if err is None:
+                if calls:
+                    kind, cs = calls[-1]
+                    want = [cs[0] if kind == 'const' else sum(c * t_ ** d for d, c in enumerate(cs)) for t_ in grev]
+                else:
+                    want = [0.0] * len(grev)
+                if len(cg) != len(want) or any(abs(a - b_) > 1e-9 * (1 + abs(b_)) for a, b_ in zip(cg, want)):
+                    err = "coefficients of the chain head start at %s, the guess in effect gives %s at their Greville times" % (list(cg), want)
+            if err is None and not before:
+                xv = [rng.choice([-1.5, -0.5, 0.5, 1.0, 2.0]) for _ in range(opti.x.numel())]
+                F1 = ca.Function('F', [opti.x, opti.p], [opti.f, opti.g])
+                pv = val(opti.p) if opti.p.numel() else []
+                a, b_ = F0(xv, pv), F1(xv, pv)
+                if abs(float(a[0]) - float(b_[0])) > 1e-9 * (1 + abs(float(a[0]))) or np.abs(np.array(a[1]) - np.array(b_[1])).max() > 1e-9:
+                    self.slice_ok["nlp-unchanged-by-guesses"] = False
+                    err = "a guess changed the NLP of a SplineMethod problem"
+            if err:
+                self.slice_ok[name] = False
+                self.violation("SplineMethod: %s (%s)" % (err, hist), {"case": hist}, {"kind": "spline-start", "order": hist["order"]})
+                return
+
+    def sampling_methods_slice(self):
         import casadi as ca
         import numpy as np
         n = 110 if self.tier == 'quick' else 1200
@@ -2035,10 +2234,15 @@ class C10(Check):
                     B.finish(b)
                     x0 = ca.DM(b.opti.debug.value(b.opti.x, b.opti.initial())).full().flatten().tolist()
                 pv = current_p(b)
-                if b.free:
-                    self.count("skipped:inactive-variable")
-                    continue        # a declared variable that is in neither f nor g has no slot in opti.x (CasADi): its start cannot be read back
                 fv = None
+                if b.free:
+                    # a declared variable that is in neither f nor g has no slot in opti.x (CasADi); its starting value is still
+                    # stored by Opti and is read symbol by symbol
+                    self.count("inactive-variable-read-directly")
+                    fv = []
+                    with B.quiet():
+                        for s_ in b.free:
+                            fv += [Fr(v) for v in ca.DM(b.opti.debug.value(s_, b.opti.initial())).full().flatten(order='F').tolist()]
                 phys = B.eval_phys(b, [Fr(v) for v in x0], pv, fv)
             except (ZeroDivisionError, OverflowError):
                 continue
